@@ -127,7 +127,7 @@ func sigChild(maskStr, dm string) {
 }
 
 // sigProcSession: see sigChild.
-func sigProcSession(r *hx.Run, id string, mask uint32, dm bool) error {
+func sigProcSession(r *hx.Run, id string, mask uint32, dm bool, sig syscall.Signal) error {
 	var before, after []string
 	env := ""
 	code, killed := 0, false
@@ -151,7 +151,7 @@ func sigProcSession(r *hx.Run, id string, mask uint32, dm bool) error {
 				env = l[2:]
 			case l == "P":
 				seenP = true
-				cmd.Process.Signal(syscall.SIGTERM) // the real thing, through os/signal
+				cmd.Process.Signal(sig) // the real thing, through os/signal
 			case strings.HasPrefix(l, "W "):
 				h := l[2:]
 				if h == "-" {
@@ -820,7 +820,11 @@ func run(r *hx.Run) error {
 	// a real SIGTERM delivered through os/signal to a Vaxis with its handlers installed (a process each):
 	// with and without in-band resize (setupSignals branches on it), with and without the mouse
 	for i, m := range []uint32{0, 1 << 14, 1<<14 | 1<<4 | 1<<1 | 1<<11, 1<<0 | 1<<2 | 1<<3 | 1<<15} {
-		if err := sigProcSession(r, fmt.Sprintf("sigproc-%d", i), m, i%2 == 1); err != nil {
+		// round 4: one of the signals setupSignals registers each (SIGTERM, SIGINT, SIGQUIT, SIGABRT; the list is
+		// pinned by Props.C04Exit.facts_kill_signals); SIGHUP is not registered (the terminal is gone then)
+		sig := []syscall.Signal{syscall.SIGTERM, syscall.SIGINT, syscall.SIGQUIT, syscall.SIGABRT}[i%4]
+		r.Count("sigproc-signal-" + sig.String())
+		if err := sigProcSession(r, fmt.Sprintf("sigproc-%d", i), m, i%2 == 1, sig); err != nil {
 			return err
 		}
 	}
